@@ -1,10 +1,24 @@
-/- `drv_c07 eval`: one constant expression per line (prefix syntax), one canonical line out:
+/- `drv_c07 eval`: one operation per line, one canonical line out.
+
+   `feval E` / `fgvar <aty> E` (arithmetic constant expressions with floating operands, over the software FPU Model/SoftFp.lean):
+
+     E ::= (lit i32 5) | (flit f64 <20 hex digits: the 80-bit long double>) | (un neg E) | (bin add A B) | (land A B) | (lor A B)
+         | (cond C A B) | (cast <aty> E)            <aty> ::= bool i8 … u64 f32 f64 f80
+
+   feval:  ty=<aty> spec=<val|none> model=<val|failure> const=<true|false|failure>
+           <val> is int:<decimal> | f32:<8 hex> | f64:<16 hex> | f80:<20 hex>; `model` is `Gen.eval2 (elabA E)` (integer type, as the
+           signed int64) or `Gen.evalDouble (elabA E)` converted to the expression's type (floating type)
+   fgvar:  the object bits `static T x = E;` stores (hex, 2·sizeof digits; long double: 20)
+
+   `eval E` (integer constant expressions):
 
      (lit i32 5) (un neg E) (bin add A B) (land A B) (lor A B) (cond C A B) (cast u8 E)
 
    output:  ty=<ITy> spec=<int|none> wrap=<res> strict=<res> const=<true|false|res>
    where <res> is  ok:<int64 as signed decimal> | diag:<message> | hostUB | crash | unmodelled -/
 import ChibiVerif.Model.ConstElab
+import ChibiVerif.Model.ConstElabF
+import ChibiVerif.Model.HostFpX86
 
 namespace ChibiVerif.Driver.ConstEval
 open ChibiVerif.Host ChibiVerif.Gen.ConstEval ChibiVerif.Spec.Const ChibiVerif.ConstElab
@@ -109,13 +123,14 @@ def storeLine : List String → String
     | some i =>
       let x := BitVec.ofInt 64 i
       let r32 (b : BitVec 32) := toString b.toInt
+      let a32 (r : Except Fail (BitVec 32)) := match r with | .ok b => toString b.toInt | .error f => showFail f
       match f, d with
       | "array_designator", "*begin" => r32 (store_array_designator_begin x)
       | "array_designator", "*end" => r32 (store_array_designator_end x)
       | "array_dimensions", "array_of(len)" => r32 (store_array_dimensions_array_of_len x)
-      | "attribute_list", "ty->align" => r32 (store_attribute_list_ty_align x)
+      | "attribute_list", "ty->align" => a32 (store_attribute_list_ty_align .wrapping x)
       | "count_array_init_elements", "i" => r32 (store_count_array_init_elements_i x)
-      | "declspec", "align" => r32 (store_declspec_align x)
+      | "declspec", "align" => a32 (store_declspec_align .wrapping x)
       | "enum_specifier", "val" => r32 (store_enum_specifier_val x)
       | "stmt", "begin" => toString (store_stmt_begin x).toInt
       | "stmt", "end" => toString (store_stmt_end x).toInt
@@ -141,12 +156,128 @@ def gvarLine : List String → String
     match ity? t, parse (toks.length + 1) toks with
     | some t, some (e, []) =>
       let n := elabE e
-      match eval2 .wrapping noFp n true with
+      match storeGvarScalar .wrapping noFp (descr t) n with
+      | .ok b => toString b.toNat
       | .error f => showFail f
-      | .ok v =>
-        match storeGvar noFp (descr t) n v with
-        | .ok b => toString b.toNat
-        | .error f => showFail f
+    | _, _ => "bad-op"
+  | _ => "bad-op"
+
+/-! ### arithmetic constant expressions with floating operands -/
+
+open ChibiVerif.Spec.ConstF in
+def aty? : String → Option ATy
+  | "f32" => some (.flt .f32) | "f64" => some (.flt .f64) | "f80" => some (.flt .f80)
+  | s => (ity? s).map .int
+
+def hexVal (c : Char) : Option Nat :=
+  if c.isDigit then some (c.toNat - '0'.toNat)
+  else if 'a' ≤ c ∧ c ≤ 'f' then some (c.toNat - 'a'.toNat + 10)
+  else if 'A' ≤ c ∧ c ≤ 'F' then some (c.toNat - 'A'.toNat + 10)
+  else none
+
+def parseHex (s : String) : Option Nat :=
+  s.foldl (fun acc c => match acc, hexVal c with | some a, some d => some (a * 16 + d) | _, _ => none) (some 0)
+
+def toHex (digits : Nat) (n : Nat) : String :=
+  String.mk ((List.range digits).reverse.map fun i => "0123456789abcdef".get ⟨(n / 16 ^ i) % 16⟩)
+
+open ChibiVerif.Spec.ConstF in
+def parseA : Nat → List String → Option (AExpr × List String)
+  | 0, _ => none
+  | fuel + 1, "(" :: "lit" :: t :: v :: ")" :: rest => do
+    let t ← ity? t
+    let v ← v.toInt?
+    let _ := fuel
+    some (.ilit t v, rest)
+  | fuel + 1, "(" :: "flit" :: t :: v :: ")" :: rest => do
+    let t ← match t with | "f32" => some FTy.f32 | "f64" => some FTy.f64 | "f80" => some FTy.f80 | _ => none
+    let v ← parseHex v
+    let _ := fuel
+    some (.flit t (BitVec.ofNat 80 v), rest)
+  | fuel + 1, "(" :: "un" :: op :: rest => do
+    let op ← unop? op
+    let (e, rest) ← parseA fuel rest
+    match rest with
+    | ")" :: rest => some (.un op e, rest)
+    | _ => none
+  | fuel + 1, "(" :: "bin" :: op :: rest => do
+    let op ← binop? op
+    let (a, rest) ← parseA fuel rest
+    let (b, rest) ← parseA fuel rest
+    match rest with
+    | ")" :: rest => some (.bin op a b, rest)
+    | _ => none
+  | fuel + 1, "(" :: "land" :: rest => do
+    let (a, rest) ← parseA fuel rest
+    let (b, rest) ← parseA fuel rest
+    match rest with
+    | ")" :: rest => some (.land a b, rest)
+    | _ => none
+  | fuel + 1, "(" :: "lor" :: rest => do
+    let (a, rest) ← parseA fuel rest
+    let (b, rest) ← parseA fuel rest
+    match rest with
+    | ")" :: rest => some (.lor a b, rest)
+    | _ => none
+  | fuel + 1, "(" :: "cond" :: rest => do
+    let (c, rest) ← parseA fuel rest
+    let (a, rest) ← parseA fuel rest
+    let (b, rest) ← parseA fuel rest
+    match rest with
+    | ")" :: rest => some (.cond c a b, rest)
+    | _ => none
+  | fuel + 1, "(" :: "cast" :: t :: rest => do
+    let t ← aty? t
+    let (e, rest) ← parseA fuel rest
+    match rest with
+    | ")" :: rest => some (.cast t e, rest)
+    | _ => none
+  | _, _ => none
+
+open ChibiVerif.Spec.ConstF in
+def showATy : ATy → String
+  | .int t => showITy t
+  | .flt .f32 => "f32" | .flt .f64 => "f64" | .flt .f80 => "f80"
+
+open ChibiVerif.Spec.ConstF in
+def showAVal : AVal → String
+  | .int v => s!"int:{v}"
+  | .f32 b => "f32:" ++ toHex 8 b.toNat
+  | .f64 b => "f64:" ++ toHex 16 b.toNat
+  | .f80 b => "f80:" ++ toHex 20 b.toNat
+
+open ChibiVerif.SoftFp (softHost)
+
+def showBits {n : Nat} (digits : Nat) : Except Fail (BitVec n) → String
+  | .ok b => toHex digits b.toNat
+  | .error f => showFail f
+
+open ChibiVerif.Spec.ConstF in
+def fevalLine (toks : List String) : String :=
+  match parseA (toks.length + 1) toks with
+  | some (e, []) =>
+    let n := elabA e
+    let spec := match Spec.ConstF.eval ChibiVerif.SoftFp.ops e with | some v => showAVal v | none => "none"
+    let model := match typeOf e with
+      | .int _ => (match eval2 .wrapping softHost n false with | .ok v => s!"int:{v.toInt}" | .error f => showFail f)
+      | .flt .f32 => (match storeGvarF32 .wrapping softHost n with | .ok b => "f32:" ++ toHex 8 b.toNat | .error f => showFail f)
+      | .flt .f64 => (match storeGvarF64 .wrapping softHost n with | .ok b => "f64:" ++ toHex 16 b.toNat | .error f => showFail f)
+      | .flt .f80 => (match storeGvarF80 .wrapping softHost n with | .ok b => "f80:" ++ toHex 20 b.toNat | .error f => showFail f)
+    s!"ty={showATy (typeOf e)} spec={spec} model={model} const={showConst (isConstExpr .wrapping softHost n)}"
+  | _ => "bad-expr"
+
+open ChibiVerif.Spec.ConstF in
+/-- `fgvar <aty> <sexpr>`: the object bits `static T x = E;` stores -/
+def fgvarLine : List String → String
+  | t :: toks =>
+    match aty? t, parseA (toks.length + 1) toks with
+    | some t, some (e, []) =>
+      let n := elabA e
+      match t with
+      | .flt .f32 => showBits 8 (storeGvarF32 .wrapping softHost n)
+      | .flt .f64 => showBits 16 (storeGvarF64 .wrapping softHost n)
+      | .flt .f80 => showBits 20 (storeGvarF80 .wrapping softHost n)
+      | .int ti => showBits (2 * ti.size) (storeGvarScalar .wrapping softHost (descr ti) n)
     | _, _ => "bad-op"
   | _ => "bad-op"
 
@@ -159,6 +290,8 @@ partial def loop (h : IO.FS.Stream) : IO UInt32 := do
   | "eval" :: _ => IO.println (evalLine ((tokens line.trimAscii.toString).drop 1)); loop h
   | "store" :: rest => IO.println (storeLine rest); loop h
   | "gvar" :: _ => IO.println (gvarLine ((tokens line.trimAscii.toString).drop 1)); loop h
+  | "feval" :: _ => IO.println (fevalLine ((tokens line.trimAscii.toString).drop 1)); loop h
+  | "fgvar" :: _ => IO.println (fgvarLine ((tokens line.trimAscii.toString).drop 1)); loop h
   | "writebuf" :: rest => IO.println (writeBufLine rest); loop h
   | _ => IO.println "bad-op"; loop h
 
